@@ -146,7 +146,7 @@ func (r *runner) check(after string) {
 func (r *runner) apply(o op) {
 	defer func() {
 		if x := recover(); x != nil {
-			r.fail("panic|"+fmt.Sprint(x), fmt.Sprintf("%v panicked: %v", o, x))
+			r.fail("panic|"+report.PanicClass(x), fmt.Sprintf("%v panicked: %v", o, x))
 		}
 	}()
 	switch o.kind {
